@@ -1,5 +1,6 @@
 use crate::core::*;
 
+pub mod c06;
 pub mod c08;
 pub mod c09;
 pub mod c10;
@@ -7,12 +8,15 @@ pub mod c16;
 pub mod c17;
 pub mod c18;
 pub mod c19;
+pub mod matchp;
 pub mod meta;
 pub mod cong;
 pub mod script;
 
 pub fn dispatch(args: &Args, rep: &mut Rep) -> bool {
     match args.prop.as_str() {
+        "C04" | "C05" => matchp::run(args, rep),
+        "C06" => c06::run(args, rep),
         "C08" => c08::run(args, rep),
         "C09" => c09::run(args, rep),
         "C10" => c10::run(args, rep),
